@@ -641,7 +641,7 @@ def infer_attr_type(E, clskey, attr):
     def ty_of(e, fn):
         if isinstance(e, ast.Constant):
             return {bytes: TBytes, int: TInt, str: TStr, bool: TBool}.get(type(e.value))
-        if isinstance(e, ast.Attribute) and isinstance(e.value, ast.Name) and e.value.id == "self" and e.attr == attr:
+        if isinstance(e, ast.Attribute) and isinstance(e.value, ast.Name) and e.value.id == "self" and e.attr in names:
             return "same"
         if isinstance(e, ast.Name):
             for a in fn.args.args + fn.args.kwonlyargs:
@@ -679,6 +679,10 @@ def infer_attr_type(E, clskey, attr):
         return None
 
     found, in_init, depth = set(), False, [0]
+    names = {attr}
+    pre = "_%s__" % clsnode.name.lstrip("_")
+    if attr.startswith(pre):
+        names.add("__" + attr[len(pre):])      # private name mangling
     for fn in clsnode.body:
         if not isinstance(fn, (ast.FunctionDef, ast.AsyncFunctionDef)):
             continue
@@ -690,7 +694,7 @@ def infer_attr_type(E, clskey, attr):
                 tgts, val = [n.target], n.value
             for t in tgts:
                 for t1 in (t.elts if isinstance(t, ast.Tuple) else [t]):
-                    if isinstance(t1, ast.Attribute) and isinstance(t1.value, ast.Name) and t1.value.id == "self" and t1.attr == attr:
+                    if isinstance(t1, ast.Attribute) and isinstance(t1.value, ast.Name) and t1.value.id == "self" and t1.attr in names:
                         if isinstance(t, ast.Tuple) or val is None:
                             return None
                         found.add(ty_of(val, fn))
@@ -822,6 +826,10 @@ def get_attr(E, obj, attr, fr, node):
         if attr not in known:
             raise PyRaise("AttributeError", line)
         return Bound(obj, attr)
+    if type(obj).__name__ == "PathV":
+        from .paths import path_attr
+        r = path_attr(E, obj, attr)
+        return r if r is not None else Bound(obj, attr)
     if isinstance(obj, (Opaque,)):
         return Opaque("attr")
     raise Unsupported("attribute %s of %r" % (attr, obj))
@@ -1449,6 +1457,9 @@ def coerce(E, v, ty, key, p):
 # ------------------------------------------------------------------------------------------------
 def call_method(E, recv, name, args, kwargs, fr, node):
     line = getattr(node, "lineno", 0)
+    if type(recv).__name__ == "PathV":
+        from .paths import path_method
+        return path_method(E, recv, name, args, kwargs, fr, node)
     if isinstance(recv, tuple) and recv and recv[0] == "super":
         _, cls, selfv = recv
         # find the defining class of the current frame, continue the MRO after it
@@ -1533,6 +1544,20 @@ def comprehension(E, e, fr, kind):
             return r
         if kind == "set":
             return frozenset(out)
+        return E.new_list(out)
+    if spec is None and unroll is not None and kind in ("list", "gen"):
+        # complete unrolling with an unwinding assertion, as for loops: at most `unroll` elements
+        out = []
+        for i in range(unroll + 1):
+            if not E.fork(z3_int(n) > i if n is not None else d.has(z3.IntVal(i))):
+                break
+            if i == unroll:
+                E.oblige("unwind[%d]" % k, False, e.lineno, "comprehension %d yields more than %d elements" % (k, unroll))
+                raise PathEnd()
+            E.assign(g.target, d.get(i), fr)
+            if all(E.truth(E.eval(c, fr)) for c in g.ifs):
+                out.append(E.eval(e.elt, fr))
+        restore()
         return E.new_list(out)
     if spec is None:
         auto = auto_map(E, e, g, d, fr, kind)
